@@ -561,11 +561,13 @@ func (s *Snapshotter) replay() error {
 
 	// Read each line
 	reader := bufio.NewReader(s.fh)
+	var valid int64
 	for {
 		line, err := reader.ReadString('\n')
 		if err != nil {
 			break
 		}
+		valid += int64(len(line))
 
 		// Skip the newline
 		line = line[:len(line)-1]
@@ -632,6 +634,17 @@ func (s *Snapshotter) replay() error {
 		} else {
 			s.logger.Printf("[WARN] serf: Unrecognized snapshot line: %v", line)
 		}
+	}
+
+	// A crash can leave an unterminated last line behind. It was ignored
+	// above; drop it from the file as well, otherwise the first line appended
+	// from now on would be glued to the fragment and both would be lost (or
+	// misread) at the next start.
+	if valid < s.offset {
+		if err := s.fh.Truncate(valid); err != nil {
+			return err
+		}
+		s.offset = valid
 	}
 
 	// Seek to the end
